@@ -525,8 +525,8 @@ def run(ctx):
     env = {"ASAN_OPTIONS": "detect_leaks=1:abort_on_error=0:allocator_may_return_null=1:detect_stack_use_after_return=0"}
     # ---- K (1)+(2): direct oracle
     agg = {}
-    n_ctrl = 1400 if quick else 14000
-    n_real = 500 if quick else 4000
+    n_ctrl = 4000 if quick else 14000
+    n_real = 1200 if quick else 4000
     scen = regression_scenarios(ctx, True, "rs") + gen_scenarios(ctx, n_ctrl, True, "s")
     a, bad1 = run_batch(ctx, exe_s, scen, "asan", env, "controlled scheduler")
     merge(agg, a)
@@ -570,7 +570,7 @@ def run(ctx):
 
 def trace_inclusion(ctx, exe_s, env):
     """Harness lines with ev=1 print the H3 event trace; the model driver must accept every trace and agree on the observables."""
-    n = 400 if ctx.quick() else 4000
+    n = 800 if ctx.quick() else 4000
     scen = gen_scenarios(ctx, n, True, "e")
     lines = [l.replace(" S:", " ev=1 S:", 1).replace(" dump=1", "") for l, _ in scen]
     parts = vlib.chunks(list(range(len(lines))), vlib.NCPU * 2)
